@@ -161,7 +161,7 @@ theorem csr_round_trip (p521 crypto : Bool) (verify : Bytes → Bytes → Bytes 
     (hne : ∀ a ∈ i.attrs, a.oid ≠ extensionRequestOid)
     (hcustom : i.p.customExts = [])
     (hip : ∀ o, SanType.ip o ∈ i.p.sans → o.length = 4 ∨ o.length = 16)
-    (hother : ∀ oid v, SanType.otherName oid v ∈ i.p.sans → Spec.utf8Valid v = true)
+    (hother : ∀ oid v, SanType.otherName oid v ∈ i.p.sans → Spec.utf8Valid v = true ∧ ∀ x ∈ oid, x < 2 ^ 64)
     (hsize : (encode (Proofs.Canon.Csr.signedCsr i sig)).length < 256 ^ 126)
     (h : parseCsr p521 crypto verify (encode (Proofs.Canon.Csr.signedCsr i sig)) = .ok r) :
     Spec.reqName r.params.dn.iter = Spec.reqName i.p.dn.iter ∧
